@@ -428,6 +428,32 @@ func treeList(g *core.G, k int) (ns []*core.N, flags []string) {
 			rec(x)
 		}
 	}
+	// tips named by small integers, a permutation of 0..n-1 or 1..n: they overlap the keys of a translate
+	// table (0-based in gotree's writer, 1-based in standard files) without being equal to their own key,
+	// so a renaming that is not simultaneous permutes them
+	if !mixed && g.Chance(0.07) {
+		perm := g.R.Perm(ntips)
+		off := g.Intn(2)
+		num := map[string]string{}
+		for j := 0; j < ntips; j++ {
+			num[fmt.Sprintf("t%d", j)] = strconv.Itoa(perm[j] + off)
+		}
+		var rec func(x *core.N)
+		rec = func(x *core.N) {
+			if len(x.Kids) == 0 {
+				if v, ok := num[x.Name]; ok {
+					x.Name = v
+				}
+			}
+			for _, kk := range x.Kids {
+				rec(kk)
+			}
+		}
+		for _, x := range ns {
+			rec(x)
+		}
+		flags = append(flags, "numeraltips")
+	}
 	// a root that is itself a tip (one neighbour): `((…))r;` — Tips()/AllTipNames list it first
 	if g.Chance(0.04) {
 		for j, x := range ns {
@@ -722,10 +748,10 @@ func multiCase(c *core.Ctx, i int) {
 	doMulti(c, strings.Join(fl, ","), strings.Join(items, "|")+"|", s)
 }
 
-// outsideCase: trees that do not end a line (two on one line; CR-only line ends): outside the
-// property's domain, only the correspondence is checked.
+// outsideCase: trees that do not end a line: several on one line (inside the domain since fix 3850fd2,
+// oracle on), CR-only line ends (outside the property's domain, only the correspondence is checked).
 func outsideCase(c *core.Ctx) {
-	ns, _ := treeList(c.G, 2+c.G.Intn(2))
+	ns, _ := treeList(c.G, 2+c.G.Intn(3))
 	ts := build(ns)
 	var items []string
 	for _, n := range ns {
@@ -739,10 +765,26 @@ func outsideCase(c *core.Ctx) {
 			b.WriteString(t.Newick() + "\r")
 		}
 	} else {
+		// several trees on one line (inside the domain since fix 3850fd2): blanks between them, and
+		// sometimes a broken tree inside the line — the trees before it are delivered, then the error
+		brokenAt := -1
+		if c.G.Chance(0.25) {
+			brokenAt = c.G.Intn(len(ts))
+			layout += ",broken"
+		}
+		items = items[:0]
 		for i, t := range ts {
+			if i == brokenAt {
+				items = append(items, "B")
+				b.WriteString(breakText(c.G, ts[c.G.Intn(len(ts))].Newick()))
+				b.WriteString(c.G.Pick([]string{"", " ", "\t"}))
+			}
+			items = append(items, "T"+ns[i].Dump())
 			b.WriteString(t.Newick())
-			if i > 0 && c.G.Chance(0.5) {
+			if i > 0 && c.G.Chance(0.4) {
 				b.WriteString("\n")
+			} else if c.G.Chance(0.4) {
+				b.WriteString(c.G.Pick([]string{" ", "\t", "  "}))
 			}
 		}
 		b.WriteString("\n")
@@ -1024,6 +1066,23 @@ func reformatCase(c *core.Ctx, i int) {
 	doReformat(c, infmt, outfmt, translate, omode, broken, ns, text, aux)
 }
 
+// cliError extracts the error message of a failed gotree command (main prints it on stderr and as a last
+// line on stdout): the first line that carries "rror", at most 300 bytes.  Empty on success.
+func cliError(r core.CLIResult) string {
+	if r.Exit == 0 {
+		return ""
+	}
+	for _, l := range strings.Split(r.Stderr+"\n"+r.Stdout, "\n") {
+		if strings.Contains(l, "rror") {
+			if len(l) > 300 {
+				l = l[:300]
+			}
+			return l
+		}
+	}
+	return ""
+}
+
 func doReformat(c *core.Ctx, infmt, outfmt string, translate bool, omode string, broken bool, ns []*core.N, text, aux string) {
 	in := c.TmpFile(text)
 	defer os.Remove(in)
@@ -1091,7 +1150,7 @@ func doReformat(c *core.Ctx, infmt, outfmt string, translate bool, omode string,
 	if broken {
 		br = "1"
 	}
-	c.Emit("C13.reformat", infmt, outfmt, tr, omode, br, core.Dumps(ns), core.Escape(text), aux, exit, core.Escape(out), outx, m)
+	c.Emit("C13.reformat", infmt, outfmt, tr, omode, br, core.Dumps(ns), core.Escape(text), aux, exit, core.Escape(out), outx, m, core.Escape(cliError(r)))
 }
 
 // firstCLICase: `gotree compare edges -i doc -c doc -f fmt`: the reference is read by the single-tree reader,
@@ -1137,7 +1196,7 @@ func doFirstCLI(c *core.Ctx, infmt string, ns []*core.N, text, aux string) {
 		}
 		rows = append(rows, f[2]+";"+f[3]+";"+f[9]+";"+f[14]+";"+f[15])
 	}
-	c.Emit("C13.clifirst", infmt, core.Dumps(ns), core.Escape(text), aux, exit, strings.Join(rows, "|"))
+	c.Emit("C13.clifirst", infmt, core.Dumps(ns), core.Escape(text), aux, exit, strings.Join(rows, "|"), core.Escape(cliError(r)))
 }
 
 // ---- Nexus documents that gotree's writer does not emit but that are legal Nexus
@@ -1174,10 +1233,48 @@ func renamedNewick(n *core.N, m map[string]string) string {
 	return t.Newick()
 }
 
+// stdFormCase writes the trees in exactly the layout of the Lean specification writer
+// `writeNexusStd` (Model/C13Std.lean; theorem nexus_std_roundtrip): lower-case keywords, tabs, one
+// label per line, a translate table numbered from 1 with commas, `tree treeN = [&U] <newick>;`.
+// The taxa are listed in the order of the first tree's tips or in a shuffled order.
+func stdFormCase(c *core.Ctx, ns []*core.N) {
+	g := c.G
+	flags := "std-form,kw-lower,tabs,labels-multiline,translate-commas,rooting-comment"
+	labels := append([]string{}, ns[0].TipNames()...)
+	if g.Chance(0.5) {
+		g.R.Shuffle(len(labels), func(i, j int) { labels[i], labels[j] = labels[j], labels[i] })
+		flags += ",labels-shuffled"
+	}
+	m := map[string]string{}
+	var b strings.Builder
+	b.WriteString("#NEXUS\nbegin taxa;\n\tdimensions ntax=" + strconv.Itoa(len(labels)) + ";\n\ttaxlabels")
+	for _, l := range labels {
+		b.WriteString("\n\t\t" + l)
+	}
+	b.WriteString("\n;\nend;\n\nbegin trees;\n\ttranslate")
+	for j, l := range labels {
+		m[l] = strconv.Itoa(j + 1)
+		b.WriteString("\n\t\t" + strconv.Itoa(j+1) + " " + l)
+		if j < len(labels)-1 {
+			b.WriteString(",")
+		}
+	}
+	b.WriteString("\n;\n")
+	for j, n := range ns {
+		b.WriteString("tree tree" + strconv.Itoa(j+1) + " = [&U] " + renamedNewick(n, m) + "\n")
+	}
+	b.WriteString("end;\n")
+	doForeign(c, flags, ns, b.String())
+}
+
 func foreignCase(c *core.Ctx, i int) {
 	g := c.G
 	k := 1 + g.Intn(4)
 	ns, _ := treeList(g, k)
+	if g.Chance(0.12) {
+		stdFormCase(c, ns)
+		return
+	}
 	var flags []string
 	kc := g.Intn(3)
 	flags = append(flags, []string{"kw-upper", "kw-lower", "kw-capital"}[kc])
@@ -1187,6 +1284,18 @@ func foreignCase(c *core.Ctx, i int) {
 		flags = append(flags, "tabs")
 	}
 	labels := ns[0].TipNames()
+	// quoted labels (legal Nexus; gotree's lexer has no quoting: the quotes stay part of the name and a
+	// blank inside splits the label) — outside the property's hypotheses, model against code only
+	lab := func(l string) string { return l }
+	if g.Chance(0.08) {
+		if g.Chance(0.5) {
+			lab = func(l string) string { return "'" + l + "'" }
+			flags = append(flags, "quoted-labels")
+		} else {
+			lab = func(l string) string { return "'" + l + " x'" }
+			flags = append(flags, "quoted-labels-blank")
+		}
+	}
 	var b strings.Builder
 	b.WriteString("#NEXUS\n")
 	if g.Chance(0.3) {
@@ -1212,9 +1321,9 @@ func foreignCase(c *core.Ctx, i int) {
 		multi := g.Chance(0.3)
 		for _, l := range labels {
 			if multi {
-				b.WriteString("\n" + ind + ind + l)
+				b.WriteString("\n" + ind + ind + lab(l))
 			} else {
-				b.WriteString(" " + l)
+				b.WriteString(" " + lab(l))
 			}
 		}
 		if multi {
@@ -1240,22 +1349,35 @@ func foreignCase(c *core.Ctx, i int) {
 			return
 		}
 		b.WriteString(ind + kwCase(kc, "TRANSLATE"))
+		// a comment where an entry could start (consumed by the parser)
+		comAt := -1
+		if g.Chance(0.2) {
+			comAt = g.Intn(len(labels))
+			flags = append(flags, "comment-translate")
+		}
 		for j, l := range labels {
 			sep := ","
 			if j == len(labels)-1 {
 				sep = ""
 			}
+			if j == comAt {
+				if trMode == 2 {
+					b.WriteString(" [entry " + strconv.Itoa(j) + ", next]")
+				} else {
+					b.WriteString("\n" + ind + ind + "[entry " + strconv.Itoa(j) + ";\n next]")
+				}
+			}
 			if trMode == 1 {
-				b.WriteString("\n" + ind + ind + strconv.Itoa(j+1) + "   " + l + sep)
+				b.WriteString("\n" + ind + ind + strconv.Itoa(j+1) + "   " + lab(l) + sep)
 			} else if trMode == 3 {
 				// the comma at the start of the next line
 				if j > 0 {
-					b.WriteString("\n" + ind + ", " + strconv.Itoa(j+1) + " " + l)
+					b.WriteString("\n" + ind + ", " + strconv.Itoa(j+1) + " " + lab(l))
 				} else {
-					b.WriteString("\n" + ind + "  " + strconv.Itoa(j+1) + " " + l)
+					b.WriteString("\n" + ind + "  " + strconv.Itoa(j+1) + " " + lab(l))
 				}
 			} else {
-				b.WriteString(" " + strconv.Itoa(j+1) + " " + l + sep)
+				b.WriteString(" " + strconv.Itoa(j+1) + " " + lab(l) + sep)
 			}
 		}
 		if trMode == 1 || trMode == 3 {
@@ -1407,9 +1529,74 @@ func foreignPxClade(g *core.G, n *core.N, isRoot bool, b *strings.Builder, flags
 	b.WriteString("</" + prefix + "clade>\n")
 }
 
+// formsStyle is the name style of the Lean specification writer `Px.encodeAlt` as the driver instantiates
+// it: a function of the name (sum of its bytes mod 6).
+func formsStyle(name string) int {
+	s := 0
+	for i := 0; i < len(name); i++ {
+		s += int(name[i])
+	}
+	return s % 6
+}
+
+func formsClade(n *core.N, isRoot bool, b *strings.Builder) {
+	b.WriteString("<clade><color><red>255</red></color><events><name>x</name></events>")
+	if n.Name != "" {
+		nm := xmlEsc(n.Name)
+		switch formsStyle(n.Name) {
+		case 0:
+			b.WriteString("<name>" + nm + "</name>")
+		case 1:
+			b.WriteString("<taxonomy><scientific_name>" + nm + "</scientific_name></taxonomy>")
+		case 2:
+			b.WriteString("<taxonomy><id provider=\"x\">7</id><code>" + nm + "</code></taxonomy>")
+		case 3:
+			b.WriteString("<taxonomy><code>ZZZ</code><scientific_name>" + nm + "</scientific_name></taxonomy>")
+		case 4:
+			b.WriteString("<taxonomy><scientific_name>Y y</scientific_name><code>ZZZ</code></taxonomy><name>" + nm + "</name>")
+		default:
+			b.WriteString("<name>zz</name><name>" + nm + "</name>")
+		}
+	}
+	if !isRoot {
+		if n.E.Len != -1 {
+			b.WriteString("<branch_length> " + strconv.FormatFloat(n.E.Len, 'f', -1, 64) + "\n</branch_length>")
+		}
+		if len(n.Kids) > 0 && n.E.Sup != -1 {
+			b.WriteString("<confidence type=\"bootstrap\"> " + strconv.FormatFloat(n.E.Sup, 'f', -1, 64) + "\n</confidence>")
+		}
+	}
+	for _, k := range n.Kids {
+		formsClade(k, false, b)
+	}
+	b.WriteString("</clade>")
+}
+
+// formsSpecCase writes the trees exactly as the Lean specification writer `Px.encodeAlt` does (theorem
+// phyloxml_forms_roundtrip), so that the driver can compare the element trees (tag forms-xml-eq).
+func formsSpecCase(c *core.Ctx, ns []*core.N) {
+	var b strings.Builder
+	b.WriteString("<?xml version=\"1.0\" encoding=\"UTF-8\"?>\n<phyloxml xmlns=\"http://www.phyloxml.org\">")
+	for _, n := range ns {
+		r := "false"
+		if len(n.Kids) == 2 {
+			r = "true"
+		}
+		b.WriteString("<phylogeny rooted=\"" + r + "\">")
+		formsClade(n, true, &b)
+		b.WriteString("</phylogeny>")
+	}
+	b.WriteString("</phyloxml>\n")
+	doForeignPx(c, "forms-spec,extra-element,number-blanks", ns, b.String())
+}
+
 func foreignPxCase(c *core.Ctx, i int) {
 	g := c.G
 	ns, _ := treeList(g, 1+g.Intn(3))
+	if g.Chance(0.15) {
+		formsSpecCase(c, ns)
+		return
+	}
 	flags := map[string]bool{}
 	prefix := ""
 	head := "<phyloxml xmlns=\"http://www.phyloxml.org\">\n"
@@ -1422,13 +1609,24 @@ func foreignPxCase(c *core.Ctx, i int) {
 	var b strings.Builder
 	b.WriteString("<?xml version=\"1.0\" encoding=\"UTF-8\"?>\n" + head)
 	for _, n := range ns {
-		b.WriteString("<" + prefix + "phylogeny rooted=\"true\"><" + prefix + "name>ph</" + prefix + "name><" + prefix + "description>d</" + prefix + "description>\n")
+		// the `rooted` attribute: any Go boolean is accepted (the value is not used), anything else makes
+		// xml.Unmarshal fail
+		rv := "true"
+		switch g.Intn(12) {
+		case 0:
+			rv = g.Pick([]string{"false", "1", "TRUE", " T ", "", "0", "False"})
+			flags["rooted-form"] = true
+		case 1:
+			rv = g.Pick([]string{"yes", "tRue", "  ", "no"})
+			flags["rooted-invalid"] = true
+		}
+		b.WriteString("<" + prefix + "phylogeny rooted=\"" + rv + "\"><" + prefix + "name>ph</" + prefix + "name><" + prefix + "description>d</" + prefix + "description>\n")
 		foreignPxClade(g, n, true, &b, flags, prefix, attrLen)
 		b.WriteString("</" + prefix + "phylogeny>\n")
 	}
 	b.WriteString("</" + prefix + "phyloxml>\n")
 	var fl []string
-	for _, k := range []string{"ns-prefix", "attr-length", "xml-comment", "name-sci", "name-sci-and-code", "name-and-taxonomy", "name-code", "name-cdata", "name-twice", "number-blanks", "number-exp", "confidence-twice", "extra-element"} {
+	for _, k := range []string{"ns-prefix", "attr-length", "xml-comment", "name-sci", "name-sci-and-code", "name-and-taxonomy", "name-code", "name-cdata", "name-twice", "number-blanks", "number-exp", "confidence-twice", "extra-element", "rooted-form", "rooted-invalid"} {
 		if flags[k] {
 			fl = append(fl, k)
 		}
@@ -1519,11 +1717,11 @@ func Run(c *core.Ctx) {
 		Replay(c, core.ReadRequests(c.Arg))
 		return
 	}
-	n := c.Scale(400, 8000)
+	n := c.Scale(400, 6000)
 	for i := 0; i < n; i++ {
 		chainCase(c, i)
 	}
-	for i := 0; i < c.Scale(300, 6000); i++ {
+	for i := 0; i < c.Scale(300, 4500); i++ {
 		multiCase(c, i)
 	}
 	for i := 0; i < c.Scale(1, 4); i++ {
@@ -1538,10 +1736,10 @@ func Run(c *core.Ctx) {
 	for i := 0; i < c.Scale(60, 1000); i++ {
 		nsCase(c, i)
 	}
-	for i := 0; i < c.Scale(120, 3000); i++ {
+	for i := 0; i < c.Scale(120, 2500); i++ {
 		foreignCase(c, i)
 	}
-	for i := 0; i < c.Scale(80, 2000); i++ {
+	for i := 0; i < c.Scale(80, 1500); i++ {
 		foreignPxCase(c, i)
 	}
 	if c.Gotree != "" {
